@@ -4,6 +4,7 @@ import Driver.OpsCodec
 import Driver.OpsHeader
 import Driver.Oracle
 import Driver.OpsJws
+import Driver.OpsClaims
 /-!
 Line-protocol driver: one request per line on stdin, one answer per line on stdout.
 `<op> <args…>`; bytes are hex (`-` = empty).  Unknown or malformed requests answer `bad-op`.
@@ -20,6 +21,9 @@ def handle (allToks : List String) : String :=
   | some r => r
   | none =>
   match handleJws toks tbl with
+  | some r => r
+  | none =>
+  match handleClaims toks with
   | some r => r
   | none => "bad-op"
 
